@@ -70,16 +70,17 @@ type OptDef struct {
 
 // CmdDef declares one command level (the root is a CmdDef too).
 type CmdDef struct {
-	Name     string      `json:"name"`
-	Desc     string      `json:"desc,omitempty"`
-	Opts     []OptDef    `json:"opts,omitempty"`
-	Cmds     []*CmdDef   `json:"cmds,omitempty"`
-	NoFn     bool        `json:"nofn,omitempty"`
-	Unset    bool        `json:"unset,omitempty"`   // wrapper: UnsetOptions()
-	Unknown  int         `json:"unknown,omitempty"` // 0 = inherit, else mode+1 set on this command
-	ArgCompl []string    `json:"argcompl,omitempty"`
-	ArgFn    bool        `json:"argfn,omitempty"`
-	SynArgs  [][2]string `json:"synargs,omitempty"`
+	Name         string      `json:"name"`
+	Desc         string      `json:"desc,omitempty"`
+	Opts         []OptDef    `json:"opts,omitempty"`
+	Cmds         []*CmdDef   `json:"cmds,omitempty"`
+	NoFn         bool        `json:"nofn,omitempty"`
+	Unset        bool        `json:"unset,omitempty"`         // wrapper: UnsetOptions()
+	Unknown      int         `json:"unknown,omitempty"`       // 0 = inherit, else mode+1 set on this command
+	RequireOrder bool        `json:"require_order,omitempty"` // SetRequireOrder() called on this command (inherited by its sub-commands)
+	ArgCompl     []string    `json:"argcompl,omitempty"`
+	ArgFn        bool        `json:"argfn,omitempty"`
+	SynArgs      [][2]string `json:"synargs,omitempty"`
 }
 
 // Def is a whole program definition.
@@ -306,6 +307,9 @@ func (p *Prog) build(l *level) {
 		}
 		if d.Unknown > 0 {
 			opt.SetUnknownMode(getoptions.UnknownMode(d.Unknown - 1))
+		}
+		if d.RequireOrder {
+			opt.SetRequireOrder()
 		}
 		if !d.NoFn {
 			path := l.path
@@ -611,3 +615,70 @@ func (p *Prog) LevelHelp(path string) string {
 
 // Opt returns the root GetOpt.
 func (p *Prog) Opt() *getoptions.GetOpt { return p.Root.opt }
+
+// HelpOf returns the help text of the level with the given path on a freshly built program
+// (Help() of the GetOpt object that declares the level, before any Parse).
+func HelpOf(def *Def, env map[string]string, path string) string {
+	p := Build(def, env)
+	defer p.Close()
+	return p.LevelHelp(path)
+}
+
+// FindLevel returns the command definition at path ("" = root) and whether an UnsetOptions
+// wrapper cuts the inheritance on the way; nil if the path names the built-in help command.
+func FindLevel(def *Def, path string) *CmdDef {
+	cur := &def.Root
+	if path == "" {
+		return cur
+	}
+	for _, name := range strings.Split(path, "/") {
+		var next *CmdDef
+		for _, k := range cur.Cmds {
+			if k.Name == name {
+				next = k
+			}
+		}
+		if next == nil {
+			return nil
+		}
+		cur = next
+	}
+	return cur
+}
+
+// VisiblePaths lists the option paths visible at the level (own and inherited up to a wrapper).
+func VisiblePaths(def *Def, path string) []string {
+	var out []string
+	var names []string
+	if path != "" {
+		names = strings.Split(path, "/")
+	}
+	// walk down, remembering the chain
+	chain := []*CmdDef{&def.Root}
+	paths := []string{""}
+	cur := &def.Root
+	p := ""
+	for _, n := range names {
+		for _, k := range cur.Cmds {
+			if k.Name == n {
+				cur = k
+				if p == "" {
+					p = n
+				} else {
+					p += "/" + n
+				}
+				chain = append(chain, k)
+				paths = append(paths, p)
+			}
+		}
+	}
+	for i := len(chain) - 1; i >= 0; i-- {
+		for _, o := range chain[i].Opts {
+			out = append(out, paths[i]+"/"+o.Name)
+		}
+		if chain[i].Unset {
+			break
+		}
+	}
+	return out
+}
